@@ -335,6 +335,44 @@ fn validate_grid<X: Sx, Y: Sx>(ctx: &Ctx, idx: u64, m: usize) {
     ctx.count("validation_grid_own_triples_accepted", accepted_own);
 }
 
+/// volume: many fresh honest proofs of X through Y's verifier and through the other interface. The challenge
+/// comparison is what binds a proof to its suite and interface; a comparison that is wrong for one value shape in a few
+/// hundred lets exactly that fraction of foreign proofs through.
+fn volume_replays<X: Sx, Y: Sx>(ctx: &Ctx, idx: u64, n: usize) {
+    let mut r = ctx.rng("c11vol", idx);
+    let (sk, pk) = key_from_scalar(crate::c04::rand_scalar(&mut r));
+    let msgs = gen_messages(&mut r, 3, 0);
+    let sig = Sig::<X>::sign(Some(&msgs), &sk, &pk, None).unwrap().to_bytes();
+    let case = format!("{}->{}/volume", name::<X>(), name::<Y>());
+    ctx.distinct(&case);
+    let d = [0usize, 2];
+    let dm = vec![msgs[0].clone(), msgs[2].clone()];
+    let mut ok_own = 0u64;
+    for k in 0..n {
+        let ph = (k as u64).to_be_bytes();
+        let Ok(proof) = Pok::<X>::proof_gen(&pk, &sig, None, Some(&ph), Some(&msgs), Some(&d)) else {
+            ctx.inconclusive("C11: honest proof_gen failed (C03's business)");
+            return;
+        };
+        let pb = proof.to_bytes();
+        if let Ok(p) = Pok::<Y>::from_bytes(&pb) {
+            let o = ctx.call("proof_verify", &case, None, || p.proof_verify(&pk, Some(&dm), Some(&d), None, Some(&ph)));
+            rejected(ctx, "proof/other-suite(volume)", &case, &o.outcome, json!({"proof":hx_full(&pb),"k":k}));
+            let o = ctx.call("blind_proof_verify", &case, None, || p.blind_proof_verify(&pk, None, Some(&ph), Some(3), Some(&dm), None, Some(&d), None));
+            rejected(ctx, "proof/other-suite-blind-interface(volume)", &case, &o.outcome, json!({"proof":hx_full(&pb),"k":k}));
+        }
+        let o = ctx.call("blind_proof_verify", &case, None, || proof.blind_proof_verify(&pk, None, Some(&ph), Some(2), Some(&dm), None, Some(&d), None));
+        rejected(ctx, "proof/blind-interface(volume)", &case, &o.outcome, json!({"proof":hx_full(&pb),"k":k}));
+        if k % 16 == 0 && proof.proof_verify(&pk, Some(&dm), Some(&d), None, Some(&ph)).is_ok() {
+            ok_own += 1;
+        }
+        ctx.count("volume_foreign_verifications", 3);
+    }
+    if ok_own == 0 {
+        ctx.inconclusive("C11: no honest proof verified under its own suite in the volume workload");
+    }
+}
+
 pub fn scenarios(ctx: &Ctx) -> Vec<Scenario> {
     let mut v = Vec::new();
     let lm: &[(usize, usize)] = ctx.t(&[(0, 0), (1, 0), (2, 1), (3, 3), (5, 2)][..], &[(0, 0), (1, 0), (0, 1), (2, 1), (3, 3), (5, 2), (8, 4), (4, 8)][..]);
@@ -350,6 +388,11 @@ pub fn scenarios(ctx: &Ctx) -> Vec<Scenario> {
             v.push(scenario(format!("validate-grid/sha/M{m}"), move |c| validate_grid::<Sha, Shake>(c, 9000 + rep * 2 + m as u64 * 10, m)));
             v.push(scenario(format!("validate-grid/shake/M{m}"), move |c| validate_grid::<Shake, Sha>(c, 9001 + rep * 2 + m as u64 * 10, m)));
         }
+    }
+    let nvol = ctx.t(250usize, 2500usize);
+    for i in 0..6u64 {
+        v.push(scenario("volume/sha->shake", move |c| volume_replays::<Sha, Shake>(c, 9500 + i, nvol)));
+        v.push(scenario("volume/shake->sha", move |c| volume_replays::<Shake, Sha>(c, 9600 + i, nvol)));
     }
     v.push(scenario("prepare_parameters/sha", |c| prepare_params::<Sha>(c, 7000)));
     v.push(scenario("prepare_parameters/shake", |c| prepare_params::<Shake>(c, 7001)));
